@@ -1,6 +1,10 @@
 """Per-property check functions. Each returns a result dict for vlib.finish."""
+import concurrent.futures
+import hashlib
 import json
 import os
+import re
+import shutil
 
 import vlib
 from vlib import sh, BUILD, COQ
@@ -73,11 +77,57 @@ def replay_C05(ctx, path):
     return 0
 
 
+# ------------------------------------------------------------------ generic: purefh mode + coq cases file with "bad = []"
+def run_pure_mode(ctx, tier, mode, rule, comparison, key_prefix="", vo_deps=("Model/WalletFile.vo",)):
+    tool = _tool("purefh")
+    with vlib.BuildLock():
+        for d in vo_deps:
+            rc, o, e = sh(["make", "-j16", d], cwd=COQ, timeout=1500)
+            if rc != 0:
+                return {"evaluations": 0, "distinct_nontrivial": 0, "rule": rule, "samples": [], "violations": [],
+                        "mismatches": ["model does not compile: " + (o + e)[-800:]]}
+    summ = os.path.join(ctx.work, "%s_%s.json" % (mode, tier))
+    cases = os.path.join(ctx.work, "%s_cases_%s.v" % (mode, tier))
+    rc, out, err = sh([tool, mode, "-tier", tier, "-seed", str(ctx.seed), "-summary", summ, "-out", cases], timeout=3000)
+    if rc != 0:
+        raise RuntimeError("purefh %s failed rc=%s\n%s\n%s" % (mode, rc, out[-2000:], err[-2000:]))
+    s = json.load(open(summ))
+    q = []
+    for x in ("Base", "Gen", "Model", "Run"):
+        q += ["-Q", os.path.join(COQ, x), "Verif"]
+    rc, o, e = sh(["coqc"] + q + [cases], cwd=ctx.work, timeout=2400)
+    txt = o + e
+    m = re.search(r"bad\s*=\s*(\[.*?\])\s*:\s*list", txt, re.S)
+    mism = []
+    if rc != 0 or not m:
+        mism.append("coq evaluation of the cases failed: " + txt[-800:])
+    elif m.group(1).strip() != "[]":
+        mism.append("model and implementation disagree on: " + m.group(1)[:1500])
+    viol = [{"key": key_prefix + v.get("kind", "?"), "what": json.dumps(v)[:500], "input": v} for v in (s.get("violations") or [])]
+    return {"evaluations": s["evaluations"], "distinct_nontrivial": s.get("distinct_nontrivial", 0), "rule": rule,
+            "samples": s.get("samples", []), "mismatches": mism, "violations": viol,
+            "extra": {"branches_reached": s.get("kinds", {}), "exhaustive_note": s.get("exhaustive", ""), "comparison": comparison}}
+
+
+def make_pure_check(prop, mode, rule, comparison, assumptions, vo_deps):
+    def run(ctx, tier):
+        r = run_pure_mode(ctx, tier, mode, rule, comparison, vo_deps=vo_deps)
+        r["assumptions"] = assumptions
+        return r
+
+    def replay(ctx, path):
+        r = json.load(open(path))
+        print(json.dumps(r, indent=1)[:3000])
+        res = run(ctx, r.get("tier", "quick"))
+        if res["violations"] or res["mismatches"]:
+            print("VIOLATION property=%s replay=%s" % (prop, path))
+            return 1
+        print("replay: property holds on the current tree")
+        return 0
+    return {"run": run, "replay": replay}
+
+
 # ------------------------------------------------------------------ ledger properties (shared harness run)
-import concurrent.futures
-import hashlib
-import re
-import shutil
 
 
 def _dir_hash(paths):
@@ -216,4 +266,11 @@ PROPS = {
     "C07": make_ledger_check("C07", ["trunc.", "op.truncate", "op.create.quiet", "op.add.quiet"]),
     "C13": make_ledger_check("C13", ["perm.", "res.retry", "res.add.RParentMissing", "op.retry"]),
     "C14": make_ledger_check("C14", ["load.", "res.load", "op.load"]),
+    "C20": make_pure_check("C20", "wallet",
+        "real SaveWallet/ReadWallet (+PEM) over seeded wallets x {16,32}-byte keys: the round trip, EVERY truncation length 0..len-1, EVERY byte position x k xor-values, "
+        "one extra byte, wrong keys of sizes {same, other valid, 0,1,15,17,24,31,33,64} and one flipped key bit; non-trivial = every non-round-trip case (each is a distinct file/key)",
+        "outcome class (wallet / error / panic under recover) vs the model's decision list read_class, evaluated by coqc vm_compute",
+        ["H-aead: AES-GCM opens only what was sealed under the same key and nonce (premise of C20_altered_file_is_error / C20_wrong_key_is_error)",
+         "H-gob / H-pem: encoding/gob and x509+pem round-trip the wallet struct (premise of C20_roundtrip)"],
+        ("Model/WalletFile.vo",)),
 }
